@@ -66,6 +66,7 @@ type Options struct {
 }
 
 type Machine struct {
+	justRotated bool
 	E      *wenv.Env
 	T      *rapid.T
 	Opt    Options
@@ -207,6 +208,15 @@ func (m *Machine) call(h *wenv.WalletH, what string, fn func() error) (err error
 func (m *Machine) Step(t *rapid.T) {
 	m.T = t
 	op := rapid.SampledFrom(m.ops).Draw(t, "op")
+	if m.justRotated {
+		// the operation that discovers a rotation matters: two times in three it is one that derives outputs for
+		// a swap or locks proofs right away (instead of whatever comes up)
+		m.justRotated = false
+		if f := rapid.SampledFrom([]string{"", "send", "send", "send_p2pk", "melt", "send_htlc"}).Draw(t, "op_after_rotation"); f != "" && m.Opt.Weights[f] > 0 {
+			op = f
+			m.Count["rotation_discovered_by_"+f]++
+		}
+	}
 	m.Detail = ""
 	if !m.exec(t, op) {
 		op = "mint"
@@ -770,6 +780,7 @@ func (m *Machine) opRotate(t *rapid.T) bool {
 	w.RefreshKeysets()
 	m.logf("%s rotates its keyset (fee %d)", wenv.URL(w), fee)
 	m.Count["rotation"]++
+	m.justRotated = true
 	return true
 }
 
